@@ -30,6 +30,35 @@ var commonAssumptions = []string{
 func allChecks() []CheckSpec {
 	return []CheckSpec{
 		{
+			ID: "C12",
+			Harnesses: []HarnessSpec{
+				{Fn: "verifC12Sequence", Lemma: "sequential operation sequences on the real UDPMuxDefault (GetConn, write through a handle, inbound datagram through the real connWorker, RemoveConnByUfrag, handle Close, mux Close) against a reference routing table (owner by canonical address = last writer, connections by ufrag): every inbound datagram grows exactly the reference's destination queue by one byte-identical packet with the true source, no other queue changes; first-contact STUN is routed by the USERNAME prefix only to that ufrag's connection of the source's family; per-connection FIFO; address map and per-connection lists agree with canonical keys; removed/closed connections receive nothing and own no binding",
+					Bounds: "3 (quick) / 5 (thorough) operations over 2 ufrags, 4 addresses (two IPv4, the IPv4-mapped form of the first, one IPv6), datagram = 3 arbitrary bytes or STUN with USERNAME of a known or arbitrary 2-byte ufrag, IPv4 mux socket", MustReach: []string{"written", "delivered", "dropped", "removed", "last-handle-closed", "mux-closed", "done"},
+					Cfg: func(c *HarnessCfg, tier int) { c.GoPolicy = "queue" }},
+			},
+			Assumptions: append([]string{
+				"goroutines (connWorker, the per-connection close watcher) take turns at operation boundaries: each runs until it blocks (one legal schedule per path; interleavings are outside the claim)",
+				"the shared socket is a recording fake fed through a channel; sync.Pool = New() on every Get",
+			}, commonAssumptions...),
+			Outside: "concurrent interleavings of these operations, MultiUDPMuxDefault, the universal mux's XOR-mapped cache, unspecified-address muxes (IPv6 connections)",
+		},
+		{
+			ID: "C13",
+			Harnesses: []HarnessSpec{
+				{Fn: "verifC13Refcount", Lemma: "2..3 handles for one ufrag share one underlying connection that is closed exactly when the last handle closes (repeated Close is idempotent); a closed handle's reads and writes fail with ErrClosedPipe while siblings keep reading and writing",
+					Bounds: "2..3 handles, 4 (quick) / 6 (thorough) operations from {Close, WriteTo, ReadFrom with a packet queued} on any handle", MustReach: []string{"write-on-closed-handle", "sibling-write", "read-on-closed-handle", "sibling-read", "done"},
+					Cfg: func(c *HarnessCfg, tier int) { c.GoPolicy = "queue" }},
+				{Fn: "verifC13AbortProtocol", Lemma: "write-abort protocol at method granularity on the real startWriteContext/finishWrite/abortWrite: abort without a writer in flight touches neither the state word nor the socket; the last finishing writer clears an armed deadline and the word returns to 0; a failed arming clears the flags; the in-flight count is exact and never underflows; a write starting while an abort is pending does not enter; after all writers returned later writes enter and the last deadline set is 'none'",
+					Bounds: "4 (quick) / 6 (thorough) calls from {start write, finish write, abort}, SetWriteDeadline succeeding or failing", MustReach: []string{"start-while-blocked", "last-writer-after-abort", "abort-noop", "arming-failed", "armed", "done"},
+					Cfg: func(c *HarnessCfg, tier int) { c.GoPolicy = "queue" }},
+			},
+			Assumptions: append([]string{
+				"method-atomic granularity: each protocol method runs to completion before the next starts; a spin-wait (runtime.Gosched loop) counts as blocked",
+				"context.WithCancel executed as real code; goroutines take turns at operation boundaries",
+			}, commonAssumptions...),
+			Outside: "the fine-grained interleavings of the lock-free state word (abort between setting 'blocked' and arming the deadline, three parties), context-cancelled writes, the TCP mux flavour (its Close waits on goroutines)",
+		},
+		{
 			ID: "C16",
 			Harnesses: []HarnessSpec{
 				{Fn: "verifC16Attrs", Lemma: "PRIORITY, ICE-CONTROLLING/CONTROLLED, AttrControl, USE-CANDIDATE, DTLS-in-STUN and its ACK: decode(encode(v)) = v through the real stun.Message.Add/Get; more than four ACKs rejected",
